@@ -194,6 +194,36 @@ func runC05(c *ShardCtx) {
 		}, nontrivial: nontriv, cmp: core.CmpOpts{EventKey: stateKey, SkipNoMatch: true}}) {
 		return
 	}
+	// deeper shapes: the same operators over COMPOSITE leaves - a sequence that changes the store and
+	// can fail afterwards counts as one node - so that a repetition / option / predicate over such
+	// a sequence as (only) content of a choice alternative, of a label, of an action ... is reached
+	{
+		lit := peg.Lit
+		leaves2 := []*peg.Expr{peg.Seq(peg.StateCode(0), lit("a"), lit("b")), peg.Seq(lit("a"), peg.StateCode(0), lit("b")), lit("a"), lit("b")}
+		en2 := peg.NewEnumerator(peg.Alphabet{Leaves: leaves2, Unary: allUnary, Seq: true, Choice: true, MaxArity: 2})
+		n2 := 4
+		if c.Thorough() {
+			n2 = 5
+		}
+		for size := 2; size <= n2; size++ {
+			for _, body := range en2.Size(size) {
+				if !(&peg.Grammar{Rules: []*peg.Rule{{Name: "S", Expr: body}}}).Has(peg.KState) {
+					continue
+				}
+				idx++
+				if !c.Mine(idx) {
+					continue
+				}
+				if c.Expired("composite leaves, size " + itoa(size)) {
+					return
+				}
+				run(&peg.Grammar{Rules: []*peg.Rule{{Name: "S", Expr: peg.Action(0, peg.Seq(body.Clone(), peg.AndCode(0), peg.Star(peg.Any())))}}})
+				if size <= 3 {
+					run(&peg.Grammar{Rules: []*peg.Rule{{Name: "S", Expr: peg.Action(0, peg.Seq(peg.Label("v", peg.Action(0, body.Clone())), peg.AndCode(0), peg.Star(peg.Any())))}}})
+				}
+			}
+		}
+	}
 	for size := 1; size <= n; size++ {
 		for _, body := range en.Size(size) {
 			if !(&peg.Grammar{Rules: []*peg.Rule{{Name: "S", Expr: body}}}).Has(peg.KState) {
